@@ -17,9 +17,9 @@ func init() {
 	register(&obs.Monitor{
 		ID:    "C20",
 		Level: "exploration",
-		Rule: "one history per case: a coding or non-coding transcript on a random location chain (exon -> transcript -> gene -> 0..4 orientable regions -> chromosome; now and then 100..1000 links deep), " +
-			"then up to 8 operations from {accepted SetExons (random cuts, abutting/single exon, shuffled), rejected SetExons (overlap, foreign location, no zero start), accepted/rejected Exons.Add on the transcript's own slice and on caller slices with and without spare capacity, re-orientation of the transcript, the gene or a region (regions and genes may report NotOriented)}; " +
-			"all invariants re-checked after every operation. Non-trivial = at least 2 exons or a rejected update; distinct = canonical text of chain+operations",
+		Rule: "one history per case: a coding or non-coding transcript on a random location chain (exon -> transcript -> gene, left out in a fifth of the cases -> 0..4 regions, each orientable or, one in four, a band without an Orientation method -> chromosome; now and then 100..1000 links deep), " +
+			"then up to 8 operations from {accepted SetExons (random cuts, abutting/single exon, shuffled), rejected SetExons (overlap, foreign location including a same-named twin of the transcript, no zero start, no exons; also before any set was accepted), accepted Exons.Add beyond the end and, shuffled, into the introns of a subset, rejected Exons.Add, on the transcript's own slice and on caller slices with and without spare capacity, re-orientation of the transcript, the gene or a region (regions and genes may report NotOriented)}; " +
+			"all invariants re-checked after every operation, the introns once more after the caller overwrote a returned intron list. Non-trivial = at least 2 exons or a rejected update; distinct = canonical text of chain+operations",
 		Batches: func(t string) int {
 			if t == "thorough" {
 				return 8
@@ -34,7 +34,7 @@ func init() {
 		},
 		Assumptions: []string{
 			"orientations at every orientable level are Forward or Reverse (UTR accessors are documented to panic otherwise)",
-			"accepted Exons.Add on the transcript's own slice only appends exons beyond its end (an accepted Add is allowed to reuse spare capacity)",
+			"an accepted Exons.Add is allowed to reuse spare capacity of its receiver: only the returned slice is compared, the receiver is not read again",
 			"1-based/0-based conversions are judged away from math.MaxInt (overflow) and OneToZero(0) is a documented panic",
 		},
 	})
@@ -68,6 +68,22 @@ func (n *c20chrom) Len() int               { return n.length }
 func (n *c20chrom) Name() string           { return n.name }
 func (n *c20chrom) Description() string    { return "" }
 func (n *c20chrom) Location() feat.Feature { return nil }
+
+// c20band is a level without an Orientation method (in the style of genome.Band and genome.Fragment): the base
+// orientation walk ends at it wherever it sits in the chain, positions pass through it.
+type c20band struct {
+	name   string
+	start  int
+	length int
+	loc    feat.Feature
+}
+
+func (n *c20band) Start() int             { return n.start }
+func (n *c20band) End() int               { return n.start + n.length }
+func (n *c20band) Len() int               { return n.length }
+func (n *c20band) Name() string           { return n.name }
+func (n *c20band) Description() string    { return "" }
+func (n *c20band) Location() feat.Feature { return n.loc }
 
 type c20ex struct{ Off, Len int }
 
@@ -139,7 +155,18 @@ func c20Case(r *obs.Run, i int) {
 		return feat.Forward
 	}
 	h.Chain = append(h.Chain, fmt.Sprintf("chr@%d", chr.start))
+	bands := 0
 	for d := 0; d < depth; d++ {
+		if !deep && rng.Intn(4) == 0 { // a level that is not orientable at all, in the middle of the chain
+			b := &c20band{fmt.Sprint("band", d), rng.Intn(2000) - 200, 1 << 30, loc}
+			loc = b
+			feats = append(feats, b)
+			starts = append(starts, b.start)
+			oris = append(oris, feat.NotOriented)
+			h.Chain = append(h.Chain, fmt.Sprintf("band@%d", b.start))
+			bands++
+			continue
+		}
 		n := &c20node{fmt.Sprint("region", d), rng.Intn(2000) - 200, 1 << 30, pm(), loc}
 		if !deep && rng.Intn(6) == 0 {
 			n.ori = feat.NotOriented // an orientable type that reports no orientation: base orientation stops here
@@ -155,14 +182,26 @@ func c20Case(r *obs.Run, i int) {
 	if deep {
 		h.Chain = append(h.Chain, fmt.Sprintf("%d regions", depth))
 	}
-	g := &gene.Gene{ID: "g", Chrom: loc, Offset: rng.Intn(5000), Orient: pm()}
-	if rng.Intn(8) == 0 {
-		g.Orient = feat.NotOriented
+	// the transcript "can be located on any feat.Feature such as a gene or a chromosome": one case in five has no gene
+	var g *gene.Gene
+	gi := -1 // index of the gene's orientation in oris
+	if deep || rng.Intn(5) != 0 {
+		g = &gene.Gene{ID: "g", Chrom: loc, Offset: rng.Intn(5000), Orient: pm()}
+		if rng.Intn(8) == 0 {
+			g.Orient = feat.NotOriented
+		}
+		loc = g
+		feats = append(feats, g)
+		starts = append(starts, g.Offset)
+		oris = append(oris, g.Orient)
+		gi = len(oris) - 1
+		h.Chain = append(h.Chain, fmt.Sprintf("gene@%d/%d", g.Offset, g.Orient))
+	} else {
+		r.Count("transcripts_located_without_a_gene", 1)
 	}
-	feats = append(feats, g)
-	starts = append(starts, g.Offset)
-	oris = append(oris, g.Orient)
-	h.Chain = append(h.Chain, fmt.Sprintf("gene@%d/%d", g.Offset, g.Orient))
+	if bands > 0 {
+		r.Count("chains_with_a_level_that_has_no_orientation_method", 1)
+	}
 	coding := rng.Intn(2) == 0
 	h.Coding = coding
 	tOff, tOri := rng.Intn(300), pm()
@@ -170,13 +209,13 @@ func c20Case(r *obs.Run, i int) {
 	var ct *gene.CodingTranscript
 	var nct *gene.NonCodingTranscript
 	if coding {
-		ct = &gene.CodingTranscript{ID: "t", Loc: g, Offset: tOff, Orient: tOri}
+		ct = &gene.CodingTranscript{ID: "t", Loc: loc, Offset: tOff, Orient: tOri}
 		t = ct
 	} else {
-		nct = &gene.NonCodingTranscript{ID: "t", Loc: g, Offset: tOff, Orient: tOri}
+		nct = &gene.NonCodingTranscript{ID: "t", Loc: loc, Offset: tOff, Orient: tOri}
 		t = nct
 	}
-	other := &gene.NonCodingTranscript{ID: "other", Loc: g, Offset: 0, Orient: feat.Forward}
+	other := &gene.NonCodingTranscript{ID: "other", Loc: loc, Offset: 0, Orient: feat.Forward}
 	feats = append(feats, t)
 	starts = append(starts, tOff)
 	oris = append(oris, tOri)
@@ -191,6 +230,23 @@ func c20Case(r *obs.Run, i int) {
 		return out
 	}
 	snapshot := func() []gene.Exon { return append([]gene.Exon(nil), t.Exons()...) }
+	// twin: another transcript object that cannot be told from t by name: a copy of the struct (same ID, location,
+	// offset, orientation, even the same exon slice) or a transcript of the other kind with t's ID
+	twin := func() gene.Transcript {
+		r.Count("foreign_location_is_a_same_named_twin", 1)
+		if rng.Intn(2) == 0 {
+			if ct != nil {
+				b := *ct
+				return &b
+			}
+			b := *nct
+			return &b
+		}
+		if ct != nil {
+			return &gene.NonCodingTranscript{ID: ct.ID, Loc: ct.Loc, Offset: ct.Offset, Orient: ct.Orient}
+		}
+		return &gene.CodingTranscript{ID: nct.ID, Loc: nct.Loc, Offset: nct.Offset, Orient: nct.Orient}
+	}
 	same := func(a, b []gene.Exon) bool {
 		if len(a) != len(b) {
 			return false
@@ -219,6 +275,10 @@ func c20Case(r *obs.Run, i int) {
 			}
 		}
 		if len(model) == 0 {
+			// nothing accepted yet (only rejected updates so far): no exons means no pieces at all
+			if n, sl := len(t.Introns()), ex.SplicedLen(); n != 0 || sl != 0 {
+				fail("exon-set", fmt.Sprintf("%s: transcript without exons has %d introns, spliced length %d", when, n, sl))
+			}
 			return
 		}
 		L := model[len(model)-1].Off + model[len(model)-1].Len
@@ -253,6 +313,27 @@ func c20Case(r *obs.Run, i int) {
 			fail("tiling", fmt.Sprintf("%s: SplicedLen/Start/End = %d/%d/%d", when, ex.SplicedLen(), ex.Start(), ex.End()))
 		}
 		r.Count("tilings_checked", 1)
+		// the intron list is the caller's once returned ("built dynamically"): writing to it and appending to it
+		// changes nothing for the next reader
+		if len(in) > 0 && rng.Intn(2) == 0 {
+			for k := range in {
+				in[k] = gene.Intron{Transcript: other, Offset: -77, Length: 1, Desc: "overwritten by the caller"}
+			}
+			_ = append(in, gene.Intron{Transcript: other, Offset: -78, Length: 1, Desc: "appended by the caller"})
+			for which, again := range []gene.Introns{t.Introns(), t.Exons().Introns()} {
+				bad := len(again) != len(model)-1
+				for k := 0; k < len(again) && !bad; k++ {
+					from := model[k].Off + model[k].Len
+					bad = again[k].Start() != from || again[k].End() != model[k+1].Off || again[k].Len() != model[k+1].Off-from || again[k].Location() != feat.Feature(t)
+				}
+				if bad {
+					fail("tiling", fmt.Sprintf("%s: after the caller wrote to a returned intron list, %s reports %d introns that no longer lie between the exons %v",
+						when, []string{"Introns()", "Exons().Introns()"}[which], len(again), model))
+					break
+				}
+			}
+			r.Count("intron_lists_overwritten_by_caller", 1)
+		}
 		// positions and orientations through the chain
 		// the base reference is the nearest ancestor that is not orientable (the chromosome) or reports
 		// NotOriented; the base orientation is the product of the orientations below it
@@ -268,6 +349,9 @@ func c20Case(r *obs.Run, i int) {
 		}
 		if stop > 0 {
 			r.Count("base_orientation_stops_at_unoriented_ancestor", 1)
+			if _, isBand := feats[stop].(*c20band); isBand {
+				r.Count("base_orientation_stops_at_level_without_orientation_method", 1)
+			}
 		}
 		e := ex[rng.Intn(len(ex))]
 		p := rng.Intn(e.Len())
@@ -301,6 +385,9 @@ func c20Case(r *obs.Run, i int) {
 		}
 		if got, ok := feat.PositionWithin(e, feats[j], p); !ok || got != wantPos {
 			fail("position-compose", fmt.Sprintf("%s: PositionWithin(exon, level %d, %d)=%d,%v want %d", when, j, p, got, ok, wantPos))
+		}
+		if _, isBand := feats[j].(*c20band); isBand {
+			r.Count("orientation_and_position_within_a_level_without_orientation_method", 1)
 		}
 		if got := feat.OrientationWithin(e, feats[j]); got != wantOri {
 			fail("orientation-compose", fmt.Sprintf("%s: OrientationWithin(exon, level %d)=%d want %d", when, j, got, wantOri))
@@ -351,9 +438,15 @@ func c20Case(r *obs.Run, i int) {
 	rejected := false
 	maxEx := 1
 	for op := 0; op < nops; op++ {
-		kind := rng.Intn(7)
+		kind := rng.Intn(8)
+		if kind == 7 {
+			kind = 8 // 7 is drawn from 0 below
+		}
 		if len(model) == 0 {
 			kind = 0
+			if rng.Intn(10) == 0 {
+				kind = 2 // a rejected update of a transcript that has no exons yet: "none" is the set to keep
+			}
 		}
 		if kind == 0 && len(model) != 0 && rng.Intn(3) == 0 {
 			kind = 7
@@ -436,8 +529,7 @@ func c20Case(r *obs.Run, i int) {
 				h.Ops = append(h.Ops, fmt.Sprintf("CDS=[%d,%d)", ct.CDSstart, ct.CDSend))
 			}
 		case 6: // re-orientation of one level of the chain (the fields are the caller's to assign): nothing may remember the old one
-			switch lv := rng.Intn(3); {
-			case lv == 0: // the transcript itself stays oriented
+			flipT := func() { // the transcript itself stays oriented
 				no := -oris[len(oris)-1]
 				if ct != nil {
 					ct.Orient = no
@@ -446,17 +538,28 @@ func c20Case(r *obs.Run, i int) {
 				}
 				oris[len(oris)-1] = no
 				h.Ops = append(h.Ops, fmt.Sprintf("transcript.Orient=%d", no))
-			case lv == 1 || depth == 0 || deep:
+			}
+			var region *c20node // a band has nothing to re-orient
+			k := 0
+			if depth > 0 && !deep {
+				k = rng.Intn(depth)
+				region, _ = feats[k+1].(*c20node)
+			}
+			switch lv := rng.Intn(3); {
+			case lv == 0:
+				flipT()
+			case g != nil && (lv == 1 || region == nil):
 				no := []feat.Orientation{feat.Forward, feat.Reverse, feat.NotOriented}[rng.Intn(3)]
 				g.Orient = no
-				oris[len(oris)-2] = no
+				oris[gi] = no
 				h.Ops = append(h.Ops, fmt.Sprintf("gene.Orient=%d", no))
-			default:
-				k := rng.Intn(depth)
+			case region != nil:
 				no := []feat.Orientation{feat.Forward, feat.Reverse, feat.NotOriented}[rng.Intn(3)]
-				feats[k+1].(*c20node).ori = no
+				region.ori = no
 				oris[k] = no
 				h.Ops = append(h.Ops, fmt.Sprintf("region%d.ori=%d", k, no))
+			default: // no gene, and no region or a band was drawn
+				flipT()
 			}
 			r.Count("reorientations", 1)
 		case 0, 1: // accepted SetExons
@@ -486,7 +589,13 @@ func c20Case(r *obs.Run, i int) {
 			cut := c20Cut(r, 8)
 			in := mk(cut, t)
 			why := rng.Intn(3)
+			if rng.Intn(8) == 0 {
+				why = 3
+			}
 			switch why {
+			case 3: // no exons at all: nothing has a zero start, nothing is located on the transcript
+				in = nil
+				r.Count("rejected_setexons_without_exons", 1)
 			case 0: // overlap
 				if len(in) == 1 {
 					in = append(in, gene.Exon{Transcript: t, Offset: in[0].Offset + in[0].Length - 1, Length: 3})
@@ -495,10 +604,14 @@ func c20Case(r *obs.Run, i int) {
 					in[k].Offset = in[k-1].Offset + rng.Intn(in[k-1].Length)
 				}
 			case 1: // foreign location
+				var foreign gene.Transcript = other
 				if rng.Intn(2) == 0 {
-					in = mk(cut, other)
+					foreign = twin()
+				}
+				if rng.Intn(2) == 0 {
+					in = mk(cut, foreign)
 				} else {
-					in[rng.Intn(len(in))].Transcript = other
+					in[rng.Intn(len(in))].Transcript = foreign
 				}
 			default: // no zero start: the whole set shifted right, or left (the first exon then starts below zero)
 				d := 1 + rng.Intn(20)
@@ -512,6 +625,7 @@ func c20Case(r *obs.Run, i int) {
 			rng.Shuffle(len(in), func(a, b int) { in[a], in[b] = in[b], in[a] })
 			h.Ops = append(h.Ops, fmt.Sprintf("SetExons(invalid kind %d from %v)", why, cut))
 			before := snapshot()
+			lenBefore, endBefore, intronsBefore := t.Len(), t.End(), len(t.Introns())
 			err := t.SetExons(in...)
 			if err == nil {
 				fail("invalid-accepted", fmt.Sprintf("SetExons accepted an invalid exon set (kind %d)", why))
@@ -521,8 +635,74 @@ func c20Case(r *obs.Run, i int) {
 				fail("rejected-update-changed-exons", fmt.Sprintf("rejected SetExons (kind %d) changed the exon set", why))
 				return
 			}
+			if t.Len() != lenBefore || t.End() != endBefore || len(t.Introns()) != intronsBefore {
+				fail("rejected-update-changed-exons", fmt.Sprintf("rejected SetExons (kind %d) changed the transcript: Len/End/introns %d/%d/%d, before %d/%d/%d",
+					why, t.Len(), t.End(), len(t.Introns()), lenBefore, endBefore, intronsBefore))
+				return
+			}
+			if len(model) == 0 {
+				r.Count("rejected_setexons_on_transcript_without_exons", 1)
+			}
 			rejected = true
 			r.Count("rejected_setexons", 1)
+		case 8: // accepted Add into the introns of a non-empty set, arguments in any order
+			cut := c20Cut(r, 16)
+			var keep, rest []c20ex
+			for k, x := range cut {
+				if k == 0 || rng.Intn(2) == 0 {
+					keep = append(keep, x)
+				} else {
+					rest = append(rest, x)
+				}
+			}
+			in := mk(keep, t)
+			rng.Shuffle(len(in), func(a, b int) { in[a], in[b] = in[b], in[a] })
+			if err := t.SetExons(in...); err != nil {
+				fail("accepted-rejected", fmt.Sprintf("SetExons rejected a valid exon set %v: %v", keep, err))
+				return
+			}
+			r.Count("accepted_setexons", 1)
+			s := t.Exons()
+			own := rng.Intn(2) == 0
+			if !own {
+				s = make(gene.Exons, len(keep), len(keep)+rng.Intn(2)*rng.Intn(21))
+				copy(s, t.Exons())
+			}
+			add := mk(rest, t)
+			rng.Shuffle(len(add), func(a, b int) { add[a], add[b] = add[b], add[a] })
+			var order []int
+			for _, e := range add {
+				order = append(order, e.Offset)
+			}
+			h.Ops = append(h.Ops, fmt.Sprintf("SetExons(valid %v shuffled) then Add(valid %v in the order %v) on %s slice len %d cap %d then SetExons",
+				keep, rest, order, map[bool]string{true: "transcript's own", false: "caller"}[own], len(s), cap(s)))
+			ns, err := s.Add(add...)
+			if err != nil {
+				fail("accepted-rejected", fmt.Sprintf("Add rejected valid exons %v (given in the order %v) for the set %v: %v", rest, order, keep, err))
+				return
+			}
+			if !same(ns, mk(cut, t)) {
+				fail("add-result", fmt.Sprintf("Add of %v (given in the order %v) to %v returned %d exons that are not the sorted union", rest, order, keep, len(ns)))
+				return
+			}
+			if err := t.SetExons(ns...); err != nil {
+				fail("accepted-rejected", "SetExons rejected the result of an accepted Add: "+err.Error())
+				return
+			}
+			model = cut
+			if len(cut) > maxEx {
+				maxEx = len(cut)
+			}
+			if ct != nil {
+				L := cut[len(cut)-1].Off + cut[len(cut)-1].Len
+				ct.CDSstart = rng.Intn(L + 1)
+				ct.CDSend = ct.CDSstart + rng.Intn(L-ct.CDSstart+1)
+				h.Ops = append(h.Ops, fmt.Sprintf("CDS=[%d,%d)", ct.CDSstart, ct.CDSend))
+			}
+			r.Count("accepted_add_between_existing_exons", 1)
+			if len(rest) == 0 {
+				r.Count("accepted_add_of_nothing", 1)
+			}
 		case 3: // accepted Add beyond the end, on the transcript's own slice
 			s := t.Exons()
 			end := s.End()
@@ -573,9 +753,13 @@ func c20Case(r *obs.Run, i int) {
 					bad = append(bad, gene.Exon{Transcript: t, Offset: s.End() + 5, Length: 3, Desc: "fine"})
 				}
 			default: // foreign location in a gap or beyond the end
-				bad = append(bad, gene.Exon{Transcript: other, Offset: s.End() + rng.Intn(5), Length: 2, Desc: "foreign"})
+				var foreign gene.Transcript = other
+				if rng.Intn(2) == 0 {
+					foreign = twin()
+				}
+				bad = append(bad, gene.Exon{Transcript: foreign, Offset: s.End() + rng.Intn(5), Length: 2, Desc: "foreign"})
 				if len(model) > 1 && model[1].Off > model[0].Off+model[0].Len {
-					bad = append(bad, gene.Exon{Transcript: other, Offset: model[0].Off + model[0].Len, Length: model[1].Off - model[0].Off - model[0].Len, Desc: "foreign-in-gap"})
+					bad = append(bad, gene.Exon{Transcript: foreign, Offset: model[0].Off + model[0].Len, Length: model[1].Off - model[0].Off - model[0].Len, Desc: "foreign-in-gap"})
 				}
 			}
 			h.Ops = append(h.Ops, fmt.Sprintf("Add(invalid kind %d %v) on %s slice len %d cap %d", why, bad, map[bool]string{true: "transcript's own", false: "caller"}[own], len(s), cap(s)))
